@@ -15,7 +15,7 @@ import (
 func init() { scenarios["C02"] = scenarioC02 }
 
 var c02Contexts = []string{"body", "action", "invariant", "custom", "cleanup-of-body", "cleanup-of-action", "cleanup-of-custom", "goroutine"}
-var c02Positions = []string{"first-case", "after-k-passes", "after-k-skips", "every-case", "last-case", "before-skip", "data-dependent", "then-skip-in-cleanup", "only-in-first-fail-file-replay"}
+var c02Positions = []string{"first-case", "after-k-passes", "after-k-skips", "every-case", "last-case", "before-skip", "data-dependent", "then-skip-in-cleanup", "only-in-first-fail-file-replay", "after-skip-in-cleanup"}
 
 type c02Cell struct {
 	kind FailKind
@@ -27,7 +27,7 @@ var c02Cells = func() []c02Cell {
 	var out []c02Cell
 	for k := FailKind(0); k < numFailKinds; k++ {
 		for c := range c02Contexts {
-			for p := range c02Positions {
+			for p := range c02Positions[:9] {
 				if c == 7 && k.Fatal() {
 					continue // fatal calls only from the property's own goroutine
 				}
@@ -42,6 +42,13 @@ var c02Cells = func() []c02Cell {
 				}
 				out = append(out, c02Cell{k, c, p})
 			}
+		}
+	}
+	// appended later (the order of the cells above is left as it was): the signal comes from a cleanup function that runs
+	// AFTER a later-registered cleanup function has raised a Skip - the later failure must win over the earlier skip
+	for k := FailKind(0); k < numFailKinds; k++ {
+		for _, c := range []int{4, 5, 6} {
+			out = append(out, c02Cell{k, c, 9})
 		}
 	}
 	return out
@@ -113,6 +120,12 @@ func scenarioC02(rc *RunCtx) {
 			fl.Checks = k + t.Int("c02.extra", 1, 6)
 		}
 		pre = append(pre, &Stmt{K: SCleanup, ID: 80, Body: []*Stmt{{K: SIf, Cond: cond, Body: []*Stmt{{K: SSkip, SKind: t.Pick("skip.kind", 3)}}}}})
+	case 9: // signal in a cleanup function; a cleanup function registered after it (so running before it) skips
+		cond = &Cond{Op: OpTrue}
+		if t.Chance("c02.pos9.idx", 50) {
+			cond = &Cond{Op: OpInvIdx, C: int64(k)}
+			fl.Checks = k + t.Int("c02.extra", 1, 6)
+		}
 	case 8: // a fail file exists; the property signals only in the very first invocation of the next Check (the first replay)
 		cond = &Cond{Op: OpInvIdx, C: 0}
 		fl.Checks = t.Int("c02.checks8", 1, 6)
@@ -140,6 +153,10 @@ func scenarioC02(rc *RunCtx) {
 		p.NCustom = 1
 		return &Stmt{K: SDraw, Var: 3, Gen: &GenSpec{K: "custom", Cust: c}, Label: "c"}
 	}
+	var skipAfter []*Stmt
+	if cell.pos == 9 {
+		skipAfter = []*Stmt{{K: SCleanup, ID: 81, Body: []*Stmt{{K: SIf, Cond: cond, Body: []*Stmt{{K: SSkip, SKind: t.Pick("skip.kind", 3)}}}}}}
+	}
 	switch cell.ctx {
 	case 0, 7:
 		body = append(body, S)
@@ -151,10 +168,11 @@ func scenarioC02(rc *RunCtx) {
 		body = append(body, custom([]*Stmt{S}))
 	case 4:
 		body = append(body, &Stmt{K: SCleanup, ID: 0, Body: []*Stmt{S}})
+		body = append(body, skipAfter...)
 	case 5:
-		body = append(body, &Stmt{K: SRepeat, Acts: []Action{{Name: "A", Body: []*Stmt{actDraw, {K: SCleanup, ID: 0, Body: []*Stmt{S}}}}}})
+		body = append(body, &Stmt{K: SRepeat, Acts: []Action{{Name: "A", Body: append([]*Stmt{actDraw, {K: SCleanup, ID: 0, Body: []*Stmt{S}}}, skipAfter...)}}})
 	case 6:
-		body = append(body, custom([]*Stmt{{K: SCleanup, ID: 0, Body: []*Stmt{S}}}))
+		body = append(body, custom(append([]*Stmt{{K: SCleanup, ID: 0, Body: []*Stmt{S}}}, skipAfter...)))
 	}
 	// what follows the signal must not un-signal it
 	for n := t.Int("c02.trailing", 0, 3); n > 0; n-- {
